@@ -16,8 +16,8 @@ metamodel's generator interleaved with the creations.
      `next` / next default returns and never advances.
   K  (correspondence): the result of every op and the `__dict__` (keys in order, values) of every created
      instance against lean/PyxModel/NewInst.lean (driver command `(newinst (gen lin START STEP) op…)`).
-     UUID values are never compared: the k-th value produced by the generator is renamed k+1 on the
-     implementation side (the model runs the stream 1, 2, 3, …); D checks non-null and distinct on the raw values.
+     UUID values are never compared: the k-th value produced by the generator is renamed 1000001+k on the
+     implementation side (the model runs that stream); D checks non-null and distinct on the raw values.
 """
 import itertools
 
@@ -44,6 +44,7 @@ CHUNK = 4000
 CASE_TIMEOUT_S = 10
 
 _x = None
+UUID_BASE = 1000001
 KNOWN = {'BOOLEAN': False, 'INTEGER': 0, 'REAL': 0.0, 'STRING': '', 'UNIQUE_ID': None}
 
 
@@ -237,7 +238,7 @@ def run_impl(case):
         if isinstance(v, int):
             if case['gen'] == 'uuid':
                 for k in range(len(rename), len(uuid_log)):
-                    rename.setdefault(uuid_log[k], k + 1)
+                    rename.setdefault(uuid_log[k], UUID_BASE + k)
                 return rename.get(v, v)
             return v
         if isinstance(v, str):
@@ -266,16 +267,25 @@ def run_impl(case):
             fails.append({'sig': sig, 'what': '%s; generator %s; history: %s'
                           % (what, case['gen'], dumps(_ops_sexp(case['ops'][:upto + 1])))})
 
+    exact = True          # does the oracle still know how many values the generator has handed out?
+
     def drawn(v, n):
-        """the oracle's view of one value handed out by the generator"""
+        """the oracle's view of one value handed out by the generator and observed"""
         nonlocal draws, pending_peek
-        want = expected_draw(draws)
+        want = expected_draw(draws) if exact else None
         if want is not None and v != want:
             fail('id-sequence', 'the generator handed out %r as its value number %d, expected %r' % (v, draws + 1, want), n)
         if pending_peek is not None and pending_peek != v:
             fail('peek-differs-from-next', 'peek returned %r, the next value handed out is %r' % (pending_peek, v), n)
         pending_peek = None
         draws += 1
+
+    def unobserved_draws():
+        """the constructor may have consumed generator values that no attribute shows (an explicitly supplied
+        id, a half-initialised instance): from here on the oracle no longer predicts exact values"""
+        nonlocal exact, pending_peek
+        exact = False
+        pending_peek = None
 
     for n, op in enumerate(case['ops']):
         nm = op[0]
@@ -297,7 +307,7 @@ def run_impl(case):
             v = m.id_generator.peek()
             if pending_peek is not None and v != pending_peek:
                 fail('peek-advances', 'two peeks in a row returned %r then %r' % (pending_peek, v), n)
-            want = expected_draw(draws)
+            want = expected_draw(draws) if exact else None
             if want is not None and v != want:
                 fail('peek-value', 'peek returned %r, the next value is %r' % (v, want), n)
             pending_peek = v
@@ -339,10 +349,7 @@ def run_impl(case):
                     fail('unknown-type-accepted', 'class %r has the attribute %r of unknown type %r but new() %s'
                          % (kind, plain[unknown_at][0], plain[unknown_at][1],
                             'succeeded' if exc is None else 'raised ' + type(exc).__name__), n)
-                # the ids drawn before the offending attribute are consumed
-                for a, t in plain[:unknown_at]:
-                    if t.upper() == 'UNIQUE_ID':
-                        drawn(inst.__dict__.get(a), n)
+                unobserved_draws()
             else:
                 if exc is not None and res == Sym('Meta'):
                     fail('constructor-rejected', 'new(%r, %r, %r) raised MetaException although every type is known'
@@ -365,8 +372,7 @@ def run_impl(case):
                             fail('argument-order', 'new(%r, %r, %r): attribute %r holds %r, the argument given is %r'
                                  % (op[1], op[2], op[3], a, have, want), n)
                         if T == 'UNIQUE_ID':
-                            # an explicitly supplied id still consumes a generator value (not observable here)
-                            nonlocal_draw_skip(n)
+                            unobserved_draws()
                     elif T == 'UNIQUE_ID':
                         drawn(have, n)
                         got_default_id = True
@@ -390,18 +396,6 @@ def run_impl(case):
     return {'obs': obs, 'd_fail': fails, 'nontrivial': (n_defaulted_insts >= 2 and explicit_seen) or
             (case['fam'] == 'gen' and len(set(o[0] for o in case['ops'])) > 1),
             'key': key, 'stats': stats}
-
-
-def nonlocal_draw_skip(n):
-    raise RuntimeError('replaced below')
-
-
-# `drawn` must also advance for explicitly supplied ids; that needs access to run_impl's counters, so the
-# skip is implemented by a small mutable box instead of a nested nonlocal in two places.
-def _install():
-    import types
-    src = run_impl.__code__
-    return src
 
 
 def _ops_sexp(ops):
@@ -429,6 +423,8 @@ def _val_sexp(v):
 def model_line(case):
     if case['gen'] == 'user':
         start, step = case['start'], case['step']
+    elif case['gen'] == 'uuid':
+        start, step = UUID_BASE, 1          # far away from every explicitly supplied id
     else:
         start, step = 1, 1
     return dumps([Sym('newinst'), [Sym('gen'), Sym('lin'), start, step]] + _ops_sexp(case['ops']))
